@@ -300,6 +300,7 @@ class Check:
         self.discharged = []
         self.broken = []  # (name, reason)
         self.streams = {}  # name -> stats dict
+        self.regen = {}  # name -> generator info used to minimise counterexamples
         self.violations = []  # dicts: kind, stream, case, msg, site, signature
         self.known_hits = []
         self.samples = []
@@ -378,13 +379,17 @@ class Check:
 
     # ---- correspondence streams --------------------------------------------------------------
     def run_stream(self, name, cases, impl, line=None, canon=None, oracle=None, nontrivial=None,
-                   per_case_timeout=20.0, site=None, skip=None, model_map=None, describe=None):
+                   per_case_timeout=20.0, site=None, skip=None, model_map=None, describe=None, regen=None):
         """cases: list of JSON-able dicts.  impl(case) -> result dict (with 'outcome').
         line(case) -> protocol line for the driver (None: stream has no model side).
         canon(case, result) -> the line the driver should print.  oracle(case, result) -> None or
         a message (the property fails on the implementation for this case).
         skip(case, result) -> reason string if the case must not be compared (counted)."""
         st = collections.Counter()
+        regen = regen or getattr(cases, "regen", None)
+        if regen is not None:  # (generator(rng, nmax), nmax used): lets a counterexample be minimised by re-generation
+            self.regen[name] = {"gen": regen[0], "nmax": regen[1], "impl": impl, "oracle": oracle, "skip": skip,
+                                "timeout": per_case_timeout}
         results = pmap(impl, cases, per_case_timeout)
         keep = []
         for i, (c, r) in enumerate(zip(cases, results)):
@@ -447,12 +452,61 @@ class Check:
         for k in nontrivial_keys:
             self.nontrivial.add(stream + ":" + k)
 
+    # ---- minimisation ----------------------------------------------------------------------
+    def minimise_by_regeneration(self, v, budget_s=25.0, per_size=250):
+        """search the stream's own generator at smaller sizes for a failing case with the same
+        signature; returns the smallest one found (by size of its JSON form) or None"""
+        g = self.regen.get(v["stream"])
+        if not g or not g["oracle"]:
+            return None
+        t0 = time.time()
+        best = None
+        for nmax in range(1, g["nmax"]):
+            if time.time() - t0 > budget_s:
+                break
+            rng = rng_for(self.seed, f"{self.prop}/{v['stream']}/minimise/{nmax}")
+            cases = []
+            for _ in range(per_size):
+                try:
+                    cases.append(g["gen"](rng, nmax))
+                except Exception:
+                    break
+            if not cases:
+                continue
+            try:
+                results = pmap(g["impl"], cases, g["timeout"])
+            except Exception:
+                continue
+            for c, r in zip(cases, results):
+                if r is None or (g["skip"] and g["skip"](c, r)):
+                    continue
+                try:
+                    msg = g["oracle"](c, r)
+                except Exception:
+                    msg = None
+                if msg and _sig(msg) == v["signature"]:
+                    if best is None or len(compact_json(c)) < len(compact_json(best["case"])):
+                        best = dict(v, case=c, impl=r, msg=msg, minimised={"method": "regeneration at smaller sizes", "nmax": nmax,
+                                                                             "original_case_json_bytes": len(compact_json(v["case"]))})
+            if best is not None:
+                break
+        if best is not None and len(compact_json(best["case"])) < len(compact_json(v["case"])):
+            return best
+        return None
+
     # ---- decision ---------------------------------------------------------------------------
     def finish(self, shrinker=None, trusted_extra=(), level="proof"):
         status = 0
         reported = []
         suppressed = [0]
         counter = [v for v in self.violations if v["kind"] == "counterexample"]
+        # per (site, signature): report the smallest failing case seen, not the first
+        groups = {}
+        for v in counter:
+            k = (v["site"], v["signature"])
+            if k not in groups or len(compact_json(v["case"])) < len(compact_json(groups[k]["case"])):
+                groups[k] = v
+        counter = list(groups.values())
         corr = [v for v in self.violations if v["kind"] == "correspondence"]
         os.makedirs(os.path.join(ROOT, "replays"), exist_ok=True)
 
@@ -468,6 +522,11 @@ class Check:
                 suppressed[0] += 1
                 return
             reported.append(key)
+            if v["kind"] == "counterexample" and not os.environ.get("VERIF_NO_MINIMISE"):
+                try:
+                    v = self.minimise_by_regeneration(v) or v
+                except Exception:
+                    pass
             if shrinker and v["kind"] == "counterexample":
                 try:
                     v = shrinker(v) or v
@@ -576,6 +635,15 @@ def validate_evidence(ev):
     cov = ev["coverage"]
     if ev["level"] == "proof":
         assert cov["obligations"] >= 1 and cov["discharged"] >= 0 and cov["checker_cmd"].strip()
+
+
+class Gen(list):
+    """a generated list of cases that remembers its generator and size bound, so that a
+    counterexample can be minimised by re-generation at smaller sizes"""
+
+    def __init__(self, gen, rng, nmax, count):
+        super().__init__(gen(rng, nmax) for _ in range(count))
+        self.regen = (gen, nmax) if isinstance(nmax, int) else None
 
 
 # ------------------------------------------------------------------ containers and prior use
